@@ -117,6 +117,9 @@ impl essential_vm::OpAccess for GuardedOps {
     fn op_access(&self, index: usize) -> Option<Result<Op, Self::Error>> {
         let op = *self.ops.get(index)?;
         if ops::name(&op) == "COM" && obs::last_top() > self.cap {
+            // remember it: the refusal may surface wrapped in a child's error, and a run the guard
+            // interfered with is not a run of the code under test
+            GUARD_TRIPPED.store(true, Ordering::SeqCst);
             return Some(Err(essential_asm::FromBytesError::NotEnoughBytes(essential_asm::NotEnoughBytesError)));
         }
         Some(Ok(op))
@@ -135,6 +138,7 @@ pub struct RunOut {
 }
 
 static RUN_LOCK: Mutex<()> = Mutex::new(());
+static GUARD_TRIPPED: std::sync::atomic::AtomicBool = std::sync::atomic::AtomicBool::new(false);
 
 fn classify<E: std::fmt::Debug>(e: &OpError<E>) -> String {
     // the error's variant path, two levels deep: `Stack(Empty)` -> "Stack.Empty"; the payload of a
@@ -172,6 +176,7 @@ pub fn run_traced_on(cfg: &RunCfg, vm: &mut Vm) -> RunOut {
     rec.take();
     obs::drain_reads();
     rec.enabled.store(true, Ordering::SeqCst);
+    GUARD_TRIPPED.store(false, Ordering::SeqCst);
     let access = Access::new(Arc::new(cfg.sols.clone()), cfg.idx as u16);
     let state = (cfg.pre.clone(), cfg.post.clone());
     let cost = cfg.cost.clone();
@@ -224,6 +229,7 @@ pub fn run_traced_on(cfg: &RunCfg, vm: &mut Vm) -> RunOut {
             });
             Outcome::Ok(g.unwrap_or(0))
         }
+        _ if GUARD_TRIPPED.load(Ordering::SeqCst) => Outcome::Infeasible,
         Ok(Ok(g)) => Outcome::Ok(g),
         Ok(Err(e)) => match &e.1 {
             OpError::OutOfGas(_) => Outcome::Oog(e.0),
@@ -477,6 +483,12 @@ pub fn emit_run(cfg: &RunCfg, out: &RunOut, label: &str) -> Emitted {
     if traces.is_empty() {
         // exec never started (cannot happen: enter is the first statement)
         return Emitted { events, steps, truncated: false };
+    }
+    if out.outcome == Outcome::Infeasible {
+        // the breadth guard (or a byte string that is not a program) stopped this run: nothing
+        // after the initial state is a statement about the code under test
+        events.push(J::O(vec![("e", js("trunc"))]));
+        return Emitted { events, steps, truncated: true };
     }
     let top = &traces[0];
     let kids: Vec<&VmTrace> = traces[1..].iter().collect();
